@@ -330,6 +330,16 @@ def call(px, st, name, t, args, fid, fn):
         return [(st, ('bin', 'Eq', ('len', px.subject_of(st, args[0])), INT(0)))]
     if n.endswith('slice::<impl [T]>::first'):
         return [(st, ('getres', px.subject_of(st, args[0]), 0))]
+    if n.endswith('slice::<impl [T]>::last'):
+        # the last element: position len-1 when the path knows the length
+        subj = px.subject_of(st, args[0])
+        shp = st.shapes.get(subj)
+        ls = shp.lengths() if shp is not None else None
+        if ls is not None and len(ls) == 1 and sh.LONG not in ls:
+            k = next(iter(ls))
+            if k == 0:
+                return [(st, ('adt', 'core::std::option::Option', 'None', ()))]
+            return [(st, ('getres', subj, k - 1))]
     if n.endswith('slice::<impl [T]>::get') and args[1][0] == 'int':
         return [(st, ('getres', px.subject_of(st, args[0]), args[1][1]))]
     if n.endswith('impl std::ops::Index<I> for [T]>::index') or n.endswith('impl std::ops::Index<I> for str>::index'):
@@ -1059,6 +1069,30 @@ def decide_switch(px, st, v, targets, other):
         shp = shape_get(st, subj)
         out = []
         rest = shp
+        for val, b in targets:
+            mk = sh.mask(lambda x, val=val: at(x) == val)
+            t, rest = rest.split_pos(p, mk)
+            if not t.is_empty():
+                s2 = st.copy()
+                s2.shapes[subj] = t.normalised()
+                out.append((b, s2))
+        if not rest.is_empty():
+            s2 = st.copy()
+            s2.shapes[subj] = rest.normalised()
+            out.append((other, s2))
+        return out
+    if v[0] == 'tbyte':
+        # byte p of the storage of TinyAsciiStr::from_bytes(subject) under the case transform: NUL when the subject is shorter
+        subj, p, xf = v[1], v[2], v[3]
+        shp = shape_get(st, subj)
+        short, rest = shp.split_len(lambda n: n <= p)
+        out = []
+        tmap = dict(targets)
+        if not short.is_empty():
+            s2 = st.copy()
+            s2.shapes[subj] = short.normalised()
+            out.append((tmap.get(0, other), s2))
+        at = sh.compose_transform(xf)(p)
         for val, b in targets:
             mk = sh.mask(lambda x, val=val: at(x) == val)
             t, rest = rest.split_pos(p, mk)
